@@ -262,3 +262,62 @@ func c18Drain(c *core.Ctx, r *core.Report) {
 	r.Floor("LIVE", "workers fed through an unbuffered channel", n, 1)
 	_ = types.Typ
 }
+
+// c18ShortReads — clause SHORTREAD.  (*os.File).Read may return fewer bytes than asked for together with a nil error
+// (the file ends inside the range; ReadAt, by the io.ReaderAt contract, reports an error in that case).  In the reader packages of the segment files a call of one of them whose
+// byte count is discarded decodes whatever was in the buffer before — stale or zero bytes — as file content when the
+// file is truncated, and reports no error: the count is used (compared, sliced with, returned), or the read is made
+// through io.ReadFull / binary.Read / the checksummed reader, which turn a short read into an error.
+func c18ShortReads(c *core.Ctx, r *core.Report) {
+	scope := []string{"pkg/segment/reader", "pkg/segment/pqmr", "pkg/segment/sortindex", "pkg/segment/metadata/segmentmicroindex"}
+	osRead := c.ExtObj("os", "File.Read")
+	osReadAt := c.ExtObj("os", "File.ReadAt")
+	n, bad := 0, 0
+	for _, fn := range c.RepoFunctions() {
+		in := false
+		for _, p := range scope {
+			if strings.HasPrefix(core.FnPkgPath(fn), core.ModPath+"/"+p) {
+				in = true
+			}
+		}
+		if !in || fn.Blocks == nil {
+			continue
+		}
+		k := 0
+		for _, ci := range core.CallsIn(fn) {
+			call, ok := ci.(*ssa.Call)
+			// ReadAt is bound by the io.ReaderAt contract to report an error with a short count; Read is not
+			if !ok || !core.IsCallTo(call, osRead) {
+				continue
+			}
+			_ = osReadAt
+			n++
+			k++
+			used := false
+			if refs := call.Referrers(); refs != nil {
+				for _, u := range *refs {
+					if ex, ok := u.(*ssa.Extract); ok && ex.Index == 0 {
+						if er := ex.Referrers(); er != nil {
+							for _, x := range *er {
+								if _, dbg := x.(*ssa.DebugRef); !dbg {
+									used = true
+								}
+							}
+						}
+					}
+				}
+			}
+			construct := fmt.Sprintf("%s:file-read#%d-uses-the-byte-count", shortFn(fn), k)
+			if used {
+				r.OK("GUARD", construct, c.Pos(call.Pos()), "the number of bytes read is used")
+			} else {
+				bad++
+				r.Violation("GUARD", construct, c.Pos(call.Pos()), "the byte count of a raw file read is discarded and only the error is looked at: a file that ends inside the requested range gives a short count with a nil error, so a truncated file is decoded from the bytes the buffer held before and wrong values are served without an error")
+			}
+		}
+	}
+	r.Count("raw_file_reads_in_reader_packages", n)
+	if bad == 0 {
+		r.OK("GUARD", "reader-packages:no-raw-file-read-discards-its-byte-count", "-", fmt.Sprintf("%d raw (*os.File).Read calls in the reader packages, every count used", n))
+	}
+}
